@@ -41,6 +41,8 @@ class FlowMixin:
                     self._within(n.test, s1.trace[-1].node) or (s1.trace[-1].loop is not None and s1.trace[-1].loop[1] is n and s1.trace[-1].seq > seq0))
                 # `flag = True; while flag: ..` is `while True` with the exits moved into the flag: its iterations are input-driven too
                 forked = forked or self._is_flag(n.test, s1.envs.get(fr.fid, {}))
+                # `x = read(); while x is not None: ..; x = read()` is the read-ahead spelling of `while True: x = read(); if x is None: break`
+                forked = forked or self._is_none_test(n.test)
                 if not t:
                     self.event(s1, fr, "loop-exit", n, ntot)
                     out.extend(self.exec_block(n.orelse, s1, fr) if n.orelse else [("next", s1, None)])
@@ -69,6 +71,14 @@ class FlowMixin:
     @staticmethod
     def _is_true(test):
         return isinstance(test, ast.Constant) and bool(test.value)
+
+    @staticmethod
+    def _is_none_test(test):
+        """`name is None` / `name is not None` (possibly negated): the loop runs as long as its input delivers something"""
+        while isinstance(test, ast.UnaryOp) and isinstance(test.op, ast.Not):
+            test = test.operand
+        return (isinstance(test, ast.Compare) and len(test.ops) == 1 and isinstance(test.ops[0], (ast.Is, ast.IsNot)) and isinstance(test.left, ast.Name)
+                and isinstance(test.comparators[0], ast.Constant) and test.comparators[0].value is None)
 
     @staticmethod
     def _is_flag(test, env):
